@@ -146,9 +146,21 @@ ForgetFault ==
        \/ n = 5 /\ Emit("backup:1")
   /\ UNCHANGED <<snaps, ver, nkeys, waste, copied>>
 
+\* scripted family "copyorig": snapshots that share an Original (rewrite without --forget, tag) are copied,
+\* edited again and copied again: every copy after a complete copy must find all of them already there
+CopyOrig ==
+  /\ Family = "copyorig"
+  /\ LET n == Len(hist) IN
+       \/ n = 0 /\ Emit("backup:0")
+       \/ n = 1 /\ (Emit("rewrite:0") \/ Emit("tag:0") \/ Emit("rewrite-forget:0"))
+       \/ n \in {2, 3} /\ Emit("copy")
+       \/ n = 4 /\ (Emit("tag:0") \/ Emit("rewrite:1"))
+       \/ n = 5 /\ Emit("copy")
+  /\ UNCHANGED <<snaps, ver, nkeys, waste, copied>>
+
 Joined(h) == FoldLeft(LAMBDA a, b : IF a = "" THEN b ELSE a \o " " \o b, "", h)
 \* "invariant" of the scripted family: prints every complete history once (BFS run)
-PrintComplete == (Family \in {"copydst", "forgetfault"} /\ Len(hist) = 6) => PrintT("HIST " \o Joined(hist))
+PrintComplete == (Family \in {"copydst", "forgetfault", "copyorig"} /\ Len(hist) = 6) => PrintT("HIST " \o Joined(hist))
 
 DstRepairIndex ==
   /\ In({"copy"}) /\ copied
@@ -211,7 +223,7 @@ Upgrade ==
 
 Next ==
   /\ Len(hist) < MaxLen
-  /\ \/ CopyDst \/ ForgetFault
+  /\ \/ CopyDst \/ ForgetFault \/ CopyOrig
      \/ Backup \/ BackupCrash \/ Forget \/ ForgetPrune \/ Prune \/ PruneCrash \/ Tag \/ TagCrash
      \/ Rewrite \/ RewriteCrash \/ Copy \/ CopyCrash \/ RepairIndex \/ RepairSnapshots
      \/ KeyAdd \/ KeyAddCrash \/ KeyPasswd \/ KeyPasswdCrash \/ KeyRemove \/ KeyRemoveCurrent \/ Upgrade
